@@ -738,12 +738,13 @@ func (e *c26Env) volume(idx, T int, p float64) {
 		}
 		w.store.mu.Unlock()
 		var junk []map[string]any
-		for i := 0; i < T/4; i += 40 {
+		// the failed flush is larger than any block written afterwards (recycled state, if any, covers them)
+		for i := 0; i < T; i += 40 {
 			var b bytes.Buffer
 			for j := i; j < i+40; j++ {
 				fmt.Fprintf(&b, "junk%d_%d ", tag, j)
 			}
-			junk = append(junk, map[string]any{"msg": b.String(), "p": []string{"A", "B"}[len(junk)%2]})
+			junk = append(junk, map[string]any{"msg": b.String(), "p": "A"})
 		}
 		must(eng.IngestRows(w.ctx, junk, make(chan error, 1)))
 		if ferr := eng.Flush(w.ctx); ferr == nil {
